@@ -23,6 +23,8 @@ def main(args):
         else:
             i += 1
     check, agg, info = core.run_check(pid, tier, 0, only_space=spaces or None, collect=True)
+    for v in check.finalize(agg):
+        agg["viol"].append(v)
     known = {}
     for f in core.load_findings():
         if f.get("property") == pid and f.get("status") == "known":
